@@ -24,7 +24,7 @@ def install(ctx):
 
     def get_hlog_fields(path):
         res = orig_fields(path)
-        t = TABLES.get(os.path.abspath(path))
+        t = TABLES.get(iogen.pkey(path))
         if t is not None:
             ctx.counters["fields.calls_checked"] += 1
             got = [(f.name, f.size) for f in res]
@@ -36,7 +36,7 @@ def install(ctx):
 
     def parse_hlog_data(data, header_file_path):
         res = orig(data, header_file_path)
-        t = TABLES.get(os.path.abspath(header_file_path))
+        t = TABLES.get(iogen.pkey(header_file_path))
         if t is None:
             ctx.counters["hlog.unknown_table"] += 1
             return res
@@ -59,9 +59,10 @@ def install(ctx):
 
 def plan(tier, seed):
     n = 40 if tier == "quick" else 1500
-    specs = [{"mode": "synthetic", "n": n, "rseed": seed * 1000 + i} for i in range(14)]
+    specs = [{"mode": "synthetic", "n": n, "rseed": seed * 1000 + i, "optimize": i % 4 == 3} for i in range(14)]
     specs += [{"mode": "shipped", "which": w, "rseed": seed * 1000 + 100 + k, "reps": 1 if tier == "quick" else 30}
               for k, w in enumerate(["mex", "nimitz"])]
+    specs[-1]["optimize"] = True          # python -O: assert statements are compiled away
     specs.append({"mode": "layout", "n": 25 if tier == "quick" else 300, "rseed": seed * 1000 + 200})
     return specs
 
@@ -89,7 +90,7 @@ def drive(ctx, hlog, rng, path, fields, tag):
         ctx.case(tag + d.hex(), len(d) >= 1 and len(fields) >= 1,
                  sample={"fields": fields[:3], "data_hex": d[:24].hex()} if len(d) == 7 else None)
         try:
-            hlog.parse_hlog_data(iogen.view_of(rng, d), path)
+            hlog.parse_hlog_data(iogen.view_of(rng, d), iogen.path_of(rng, path))
         except Exception as e:
             ctx.violation("C16/decoder-raised/" + type(e).__name__, "parse_hlog_data raised %r" % (e,), data=d[:300], fields=fields[:60])
 
